@@ -15,12 +15,12 @@ RULE = ('small space enumerated: region start in {0,3}, length 1..Lmax, bin size
         '(up to 1e6, up to 12 blacklist intervals, overlapping/adjacent/touching the ends); blacklisted_binning_contigs with a BED file; '
         'fill_range and bp_chunked on random inputs. A case is non-trivial when the blacklist intersects the region or the region '
         'needs more than one bin; distinct = distinct (start,end,bin,fragment,blacklist) tuples.'
-        ' Plus regions near / beyond 2^31, BED blacklists with shuffled lines or gzip compression, and a blacklist rewritten in place between two tilings.')
+        ' Plus regions near / beyond 2^31, BED blacklists with shuffled lines or gzip compression, and a blacklist rewritten in place between two tilings; the intervals of a blacklist are handed over in ascending, descending or shuffled order.')
 ASSUMPTIONS = ['blacklist intervals are half-open [start,end) with start<end, as the code documents',
                'fetch windows are only required to be contained and to extend by at most the fragment size (maximality is reported, not demanded)']
 MIN_NONTRIVIAL = {'quick': 3000, 'thorough': 100000}
 REQUIRED_MONITORS = ['yield:blacklisted_binning', 'yield:blacklisted_binning_window', 'yield:blacklisted_binning_contigs',
-                     'yield:fill_range', 'yield:bp_chunked', 'bed:gz', 'bed:shuffled', 'region:near_or_beyond_2^31', 'history:blacklist_file_rewritten_in_place']
+                     'yield:fill_range', 'yield:bp_chunked', 'bed:gz', 'bed:shuffled', 'region:near_or_beyond_2^31', 'history:blacklist_file_rewritten_in_place', 'blacklist:caller_order_unsorted', 'bed:extra_columns_or_blank_separated']
 EXHAUSTIVE = {'quick': False, 'thorough': True}
 SHARD_TIMEOUT = {'quick': 600, 'thorough': 7200}
 
@@ -164,9 +164,16 @@ def run_case(case):
         ivs = [(a, b) for a, b in itertools.combinations(pts, 2)]
         bls = [()] + [(iv,) for iv in ivs] + [tuple(sorted(p)) for p in itertools.combinations(ivs, 2)]
         triples = [tuple(sorted(r.sample(ivs, 3))) for _ in range(200)]
+        nth = 0
         for bl in bls + triples:
             if case['frac'] < 1 and r.random() > case['frac']:
                 continue
+            if len(bl) > 1:
+                # the caller's interval order is free: every second multi-interval blacklist is handed over in descending order
+                nth += 1
+                if nth % 2:
+                    bl = tuple(reversed(bl))
+                    acc.count('blacklist:caller_order_unsorted')
             for F in (None, 0, 1, 2, 5, 60):
                 run_one(acc, bbc, S, E, B, F, bl)
                 if bl and any(max(s, S) < min(e, E) for s, e in bl) or L > B:
@@ -176,7 +183,7 @@ def run_case(case):
                                      'example_out': list(bbc.blacklisted_binning(S, E, B, blacklist=list(bls[len(bls) // 2]), fragment_size=2))[:6]}}
     elif case['kind'] == 'random':
         r = rng(case['seed'], 'C17', 'random', case['i'])
-        for _ in range(case['n']):
+        for it in range(case['n']):
             S = r.choice([0, 0, r.randint(0, 5000), r.randint(0, 5000), 2 ** 31 - r.randint(1, 3000), 3 * 10 ** 9 + r.randint(0, 1000)])
             if S >= 2 ** 31 - 3000:
                 acc.count('region:near_or_beyond_2^31')
@@ -196,6 +203,13 @@ def run_case(case):
                     a = E - w + r.choice([0, 0, 1])
                 bl.append((a, a + w))
             bl = sorted(bl)
+            order = it % 3   # caller's order of the intervals: ascending, descending, shuffled
+            if order == 1:
+                bl = bl[::-1]
+            elif order == 2:
+                r.shuffle(bl)
+            if len(bl) > 1 and bl != sorted(bl):
+                acc.count('blacklist:caller_order_unsorted')
             run_one(acc, bbc, S, E, B, F, tuple(bl))
             if any(max(s, S) < min(e, E) for s, e in bl) or L > B:
                 acc.sigs.add(f'{S}/{E}/{B}/{F}/{bl}')
@@ -217,6 +231,15 @@ def run_case(case):
             bed_form = ['grouped', 'shuffled', 'gz', 'shuffled'][case['i'] % 4]
             if bed_form != 'grouped':
                 r.shuffle(lines)
+            if case['i'] % 3 == 1:
+                # BED lines with further columns (name, score, strand), separated by tabs or blanks, Windows line ends
+                def dress(line):
+                    f3 = line.split()
+                    extra = r.choice([[], ['lowmap'], ['region_x', '0', '+'], ['a b'.replace(' ', '_'), '960']])
+                    sep = r.choice(['\t', '\t', ' ', '  '])
+                    return sep.join(f3 + extra) + r.choice(['\n', '\n', '\r\n'])
+                lines = [dress(x) for x in lines]
+                acc.count('bed:extra_columns_or_blank_separated')
             acc.count('bed:' + bed_form)
             bed = os.path.join(d, 'bl.bed' + ('.gz' if bed_form == 'gz' else ''))
             import gzip as _gz
